@@ -13,19 +13,20 @@ EXTENDS Integers, Sequences, FiniteSets, TLC
 CONSTANTS PrefixRule, MaxHist, PairsAllowed     \* PairsAllowed: programs over ordered pairs of libraries as well as single ones
 
 \* the static world: modules and the command names their source text defines
-Mods == { <<"vlib_a", "cmds">>, <<"vlib_a", "sub", "cmds">>, <<"vlib_ab", "cmds">>, <<"vlib_c">>, <<"xvlib_c">>,
+Mods == { <<"vlib_a", "cmds">>, <<"vlib_a", "sub", "cmds">>, <<"vlib_ab", "cmds">>, <<"vlib_c">>, <<"xvlib_c">>, <<"vlib_d">>,
           <<"mpilot", "libraries", "eems", "csv", "io">>, <<"mpilot", "libraries", "eems", "netcdf", "io">> }
 Names(m) == CASE m = <<"vlib_a", "cmds">> -> {"Foo", "Bar"}
               [] m = <<"vlib_a", "sub", "cmds">> -> {"Qux"}
               [] m = <<"vlib_ab", "cmds">> -> {"Foo", "Baz"}
               [] m = <<"vlib_c">> -> {"Foo", "Variant"}       \* Variant: a subclass of Foo without an execute() of its own
               [] m = <<"xvlib_c">> -> {"Foo", "Bar"}            \* its name ends with "vlib_c": not part of that library either
+              [] m = <<"vlib_d">> -> {"Foo", "Zed"}             \* its Foo is a subclass of vlib_c's Foo with the same command name: still a duplicate
               [] m = <<"mpilot", "libraries", "eems", "csv", "io">> -> {"EEMSRead", "EEMSWrite"}
               [] m = <<"mpilot", "libraries", "eems", "netcdf", "io">> -> {"EEMSRead", "EEMSWrite"}
               [] OTHER -> {}
 \* modules in which a class may be defined at run time (not part of any library's source)
 DynMods == { <<"vlib_a_extra">>, <<"userscript">> }
-Libs == { <<"vlib_a">>, <<"vlib_ab">>, <<"vlib_a", "sub">>, <<"vlib_c">>,
+Libs == { <<"vlib_a">>, <<"vlib_ab">>, <<"vlib_a", "sub">>, <<"vlib_c">>, <<"vlib_d">>,
           <<"mpilot", "libraries", "eems", "csv">>, <<"mpilot", "libraries", "eems", "netcdf">> }
 \* requests: one library, an ordered pair, the package that contains both I/O libraries (a single request that selects EEMSRead/EEMSWrite twice),
 \* and the empty request (no library at all: no command at all)
